@@ -9,34 +9,63 @@
   an ARBITRARY permutation of `filterCutoff cutoff population`, so it holds for
   whatever the random generator does.
 
+  DOMAIN of `sample_size`: `sampleSize : Int` — any Python `int`, of either
+  sign (the code checks nothing: `0` raises `ZeroDivisionError`, a negative
+  value returns every retained word, `band_negative_size`).  Earlier the model
+  had `sampleSize : Nat`, which hid the negative case.  The structural theorems
+  are moreover proved for `bandsampleRun shuffled step` with an ARBITRARY step
+  (`*_any_step`), i.e. for whatever `total / sample_size` evaluates to — also
+  for a `float` sample_size, which the code accepts and `Int` does not cover.
+
   The structural theorems (`band_terminates`, `band_sub`, `band_cutoff`,
   `band_multiset`, `band_nodup`, `band_counter`) use NO property of the scalar
   type: they hold for any `+ - /` and any decidable `≤` whatsoever — in
-  particular for IEEE doubles with their rounding.  Only `band_size` needs a
-  linearly ordered field (ℚ, ℝ).
+  particular for IEEE doubles with their rounding.  Only `band_size` and
+  `band_negative_size` need a linearly ordered field (ℚ, ℝ).
 
-  `band_pure` (the argument is left unchanged): `bandsampleShuffled` is a pure
-  function of immutable lists — there is no store the model could write to, so
-  there is nothing to state in Lean; the claim about the Python object is
-  carried by the differential run only (`arg_unchanged` in harness/run_C20.py).
+  "Leaves its argument unchanged" is TEST-ONLY: the model is a pure function
+  of immutable lists; `band_arg_unchanged` below is definitional (the model
+  of the call returns the caller's list as it received it) and documents which
+  line of the code the claim rests on; the claim about the Python object is
+  carried by the differential run (`arg_unchanged` in harness/run_C20.py).
+
+  Hypotheses of `load_save` (each is necessary, see the examples after it):
+    hh  : the header line contains no LF and no CR;
+    hk  : no key contains TAB, LF or CR (CR: text mode reads with universal
+          newlines, so a CR inside a key comes back as LF and splits the line);
+    hnd : the keys are pairwise distinct (a Counter is a dict).
 -/
 import PyndlProofs.Band
+import PyndlModel.Generated
 
 namespace Pyndl.C20
 open Pyndl.Band List
 
 section Structural
-variable {α R : Type} [Add R] [Sub R] [Div R] [Zero R] [NatCast R] [LE R] [DecidableLE R]
+variable {α R : Type} [Add R] [Sub R] [Div R] [Zero R] [IntCast R] [LE R] [DecidableLE R]
 
-/-- **band_terminates.** For every shuffled population and every
-    `sample_size ≥ 1` the walk returns a sample: the iteration budget
-    `2·|population| + 1` (measure `2·|population| − index`, which strictly
-    decreases in every iteration of the outer loop) is never exhausted and the
-    back-walk never indexes out of range. -/
-theorem band_terminates (shuffled : List (α × R)) (sampleSize : Nat) (h : 1 ≤ sampleSize) :
-    ∃ sample, bandsampleShuffled shuffled sampleSize = .ok sample := by
-  obtain ⟨s, _, hok⟩ := bandsampleShuffled_ok (R := R) shuffled sampleSize (by omega)
+/-- **band_terminates (any step).** For every shuffled population and every
+    step whatsoever — i.e. whatever `sample_size` is and however the division
+    rounds — the walk returns a sample: the iteration budget `2·|population| + 1`
+    (measure `2·|population| − index`, which strictly decreases in every
+    iteration of the outer loop) is never exhausted and the back-walk never
+    indexes out of range. -/
+theorem band_terminates_any_step (shuffled : List (α × R)) (step : R) :
+    ∃ sample, bandsampleRun shuffled step = .ok sample := by
+  obtain ⟨s, _, hok⟩ := bandsampleRun_ok shuffled step
   exact ⟨s.sample, hok⟩
+
+/-- **band_terminates.** For every `int` `sample_size` other than 0 — positive
+    or negative — the call returns a sample; for 0 it raises
+    `ZeroDivisionError` (line 42). -/
+theorem band_terminates (shuffled : List (α × R)) (sampleSize : Int) :
+    (sampleSize ≠ 0 → ∃ sample, bandsampleShuffled shuffled sampleSize = .ok sample) ∧
+    (sampleSize = 0 → bandsampleShuffled shuffled sampleSize = .zeroDivision) := by
+  constructor
+  · intro h
+    obtain ⟨s, _, hok⟩ := bandsampleShuffled_ok (R := R) shuffled sampleSize h
+    exact ⟨s.sample, hok⟩
+  · intro h; subst h; rfl
 
 /-- the budget is irrelevant once it covers the measure: any larger budget gives the same final state -/
 theorem band_fuel_irrelevant (step : R) (pop : List (α × R)) (k : Nat) :
@@ -46,13 +75,21 @@ theorem band_fuel_irrelevant (step : R) (pop : List (α × R)) (k : Nat) :
   rw [hs]
   exact walk_fuel_mono step _ _ _ k hs
 
-/-- `sample_size = 0` is the `ZeroDivisionError` of line 42 -/
-theorem band_zero_size (shuffled : List (α × R)) : bandsampleShuffled shuffled 0 = .zeroDivision := rfl
+/-- **band_multiset (any step).** The picks, together with some rest, are a
+    permutation of the filtered population: every pick is a distinct *position*
+    of the table (each pick deletes its entry), nothing is invented, nothing is
+    duplicated — for every step, hence every `sample_size` of any numeric type
+    (`band_sub`, `band_cutoff`, `band_nodup`, `band_counter` follow from this
+    alone and are stated for an `int` `sample_size` of either sign). -/
+theorem band_multiset_any_step (population shuffled : List (α × R)) (cutoff : R) (step : R)
+    (hshuffle : shuffled ~ filterCutoff cutoff population) (sample : List (α × R))
+    (h : bandsampleRun shuffled step = .ok sample) :
+    ∃ rest, sample ++ rest ~ filterCutoff cutoff population := by
+  obtain ⟨rest, hr⟩ := run_rest_perm shuffled step sample h
+  exact ⟨rest, hr.trans hshuffle⟩
 
-/-- **band_multiset.** The picks, together with some rest, are a permutation of
-    the filtered population: every pick is a distinct *position* of the table
-    (each pick deletes its entry), nothing is invented, nothing is duplicated. -/
-theorem band_multiset (population shuffled : List (α × R)) (cutoff : R) (sampleSize : Nat)
+/-- **band_multiset** for an `int` `sample_size` of either sign -/
+theorem band_multiset (population shuffled : List (α × R)) (cutoff : R) (sampleSize : Int)
     (hshuffle : shuffled ~ filterCutoff cutoff population) (sample : List (α × R))
     (h : bandsampleShuffled shuffled sampleSize = .ok sample) :
     ∃ rest, sample ++ rest ~ filterCutoff cutoff population := by
@@ -61,7 +98,7 @@ theorem band_multiset (population shuffled : List (α × R)) (cutoff : R) (sampl
 
 /-- **band_sub.** Every returned `(word, freq)` is an entry of the population,
     with its original frequency. -/
-theorem band_sub (population shuffled : List (α × R)) (cutoff : R) (sampleSize : Nat)
+theorem band_sub (population shuffled : List (α × R)) (cutoff : R) (sampleSize : Int)
     (hshuffle : shuffled ~ filterCutoff cutoff population) (sample : List (α × R))
     (h : bandsampleShuffled shuffled sampleSize = .ok sample) :
     ∀ e ∈ sample, e ∈ population := by
@@ -70,7 +107,7 @@ theorem band_sub (population shuffled : List (α × R)) (cutoff : R) (sampleSize
   exact ((mem_filterCutoff cutoff population e).mp (hr.mem_iff.mp (mem_append_left _ he))).1
 
 /-- **band_cutoff.** Every returned frequency is at or above the cutoff. -/
-theorem band_cutoff (population shuffled : List (α × R)) (cutoff : R) (sampleSize : Nat)
+theorem band_cutoff (population shuffled : List (α × R)) (cutoff : R) (sampleSize : Int)
     (hshuffle : shuffled ~ filterCutoff cutoff population) (sample : List (α × R))
     (h : bandsampleShuffled shuffled sampleSize = .ok sample) :
     ∀ e ∈ sample, cutoff ≤ e.2 := by
@@ -80,7 +117,7 @@ theorem band_cutoff (population shuffled : List (α × R)) (cutoff : R) (sampleS
 
 /-- **band_nodup.** The population is a dict (its words are pairwise distinct),
     so no word is returned twice. -/
-theorem band_nodup (population shuffled : List (α × R)) (cutoff : R) (sampleSize : Nat)
+theorem band_nodup (population shuffled : List (α × R)) (cutoff : R) (sampleSize : Int)
     (hkeys : (population.map Prod.fst).Nodup)
     (hshuffle : shuffled ~ filterCutoff cutoff population) (sample : List (α × R))
     (h : bandsampleShuffled shuffled sampleSize = .ok sample) :
@@ -93,7 +130,7 @@ theorem band_nodup (population shuffled : List (α × R)) (cutoff : R) (sampleSi
   exact (nodup_append.mp h1).1
 
 /-- **band_counter.** Hence the `Counter` built at line 75 has exactly the picked entries. -/
-theorem band_counter [DecidableEq α] (population shuffled : List (α × R)) (cutoff : R) (sampleSize : Nat)
+theorem band_counter [DecidableEq α] (population shuffled : List (α × R)) (cutoff : R) (sampleSize : Int)
     (hkeys : (population.map Prod.fst).Nodup)
     (hshuffle : shuffled ~ filterCutoff cutoff population) (sample : List (α × R))
     (h : bandsampleShuffled shuffled sampleSize = .ok sample) :
@@ -105,32 +142,54 @@ end Structural
 section Size
 variable {α R : Type} [Field R] [LinearOrder R] [IsStrictOrderedRing R]
 
-/-- **band_size.** Over a linearly ordered field, when every retained
-    frequency is positive, at most `sample_size` words are picked (and the
+/-- **band_size.** Over a linearly ordered field, when `sample_size ≥ 1` and
+    every retained frequency is positive, at most `sample_size` words are picked (and the
     returned Counter has at most that many entries).  Invariant
     (`Pyndl.Band.SizeInv`): the accumulator is never negative and
     `picks · step + accumulator = Σ picked + Σ passed-over`, which never exceeds
     `total = sample_size · step`.  Without positivity the claim is false:
     with `total = 0` the step is 0 and every word is picked (see the example
     below). -/
-theorem band_size [DecidableEq α] (population shuffled : List (α × R)) (cutoff : R) (sampleSize : Nat)
+theorem band_size [DecidableEq α] (population shuffled : List (α × R)) (cutoff : R) (sampleSize : Int)
+    (hsize : 1 ≤ sampleSize)
     (hpos : ∀ e ∈ population, cutoff ≤ e.2 → 0 < e.2)
     (hshuffle : shuffled ~ filterCutoff cutoff population) (sample : List (α × R))
     (h : bandsampleShuffled shuffled sampleSize = .ok sample) :
-    sample.length ≤ sampleSize ∧ (toDict sample).length ≤ sampleSize := by
+    (sample.length : Int) ≤ sampleSize ∧ ((toDict sample).length : Int) ≤ sampleSize := by
   have hpos' : ∀ e ∈ shuffled, 0 < e.2 := by
     intro e he
     obtain ⟨h1, h2⟩ := (mem_filterCutoff cutoff population e).mp (hshuffle.mem_iff.mp he)
     exact hpos e h1 h2
-  have := sample_length_le shuffled sampleSize sample hpos' h
-  exact ⟨this, Nat.le_trans (toDict_length_le sample) this⟩
+  have := sample_length_le shuffled sampleSize (by omega) sample hpos' h
+  refine ⟨this, le_trans ?_ this⟩
+  exact_mod_cast toDict_length_le sample
+
+/-- **band_negative_size.** The code does not reject a negative `sample_size`:
+    with positive retained frequencies the step is negative, every word is
+    picked, and the call returns ALL retained words (a permutation of the
+    filtered population) — `bandsample(pop, -1)` is the filtered table.  So the
+    bound of `band_size` really needs `1 ≤ sample_size`. -/
+theorem band_negative_size (population shuffled : List (α × R)) (cutoff : R) (sampleSize : Int)
+    (hsize : sampleSize < 0)
+    (hpos : ∀ e ∈ population, cutoff ≤ e.2 → 0 < e.2)
+    (hshuffle : shuffled ~ filterCutoff cutoff population) (sample : List (α × R))
+    (h : bandsampleShuffled shuffled sampleSize = .ok sample) :
+    sample ~ filterCutoff cutoff population := by
+  have hpos' : ∀ e ∈ shuffled, 0 < e.2 := by
+    intro e he
+    obtain ⟨h1, h2⟩ := (mem_filterCutoff cutoff population e).mp (hshuffle.mem_iff.mp he)
+    exact hpos e h1 h2
+  exact (sample_all_of_negative shuffled sampleSize hsize sample hpos' h).trans hshuffle
 
 end Size
 
-/-- **load_save.** For every counter whose keys are pairwise distinct and free
-    of TAB, LF and CR — including the empty key and keys with surrounding or
-    inner spaces — and every header line, `load_counter` reads back from the
-    text `save_counter` wrote exactly the entries `most_common()` listed … -/
+/-- **load_save.** Hypotheses: `hh` the header line has no LF and no CR; `hk` no
+    key contains TAB, LF or CR; `hnd` the keys are pairwise distinct (a Counter
+    is a dict).  Then — for every such counter, including the empty key, keys
+    with surrounding or inner spaces, negative and zero counts — `load_counter`
+    reads back from the text `save_counter` wrote exactly the entries
+    `most_common()` listed …  Each hypothesis is necessary: see the examples
+    `load_save_needs_*` below. -/
 theorem load_save (hdr : Str) (c : List (Str × Int))
     (hh : '\n' ∉ hdr ∧ '\r' ∉ hdr)
     (hk : ∀ e ∈ c, '\t' ∉ e.1 ∧ '\n' ∉ e.1 ∧ '\r' ∉ e.1)
@@ -141,9 +200,6 @@ theorem load_save (hdr : Str) (c : List (Str × Int))
     fun e he => hk e (hp.mem_iff.mp he)
   have h2 : ((mostCommon c).map Prod.fst).Nodup := (hp.map Prod.fst).nodup_iff.mpr hnd
   exact loadCounter_lines hdr (mostCommon c) hh h1 h2
-
-/-- … and those are the items of the counter (as a dict: same entries, order irrelevant). -/
-theorem load_save_items (c : List (Str × Int)) : mostCommon c ~ c := mostCommon_perm c
 
 /-! ## Non-vacuity
 
@@ -177,5 +233,73 @@ example :
 /-- a repeated key is rejected (`ValueError`), as is a key containing a TAB -/
 example : loadCounter "h\na\t1\na\t2\n".toList = none ∧ loadCounter "h\na\tb\t1\n".toList = none := by
   decide +kernel
+
+
+/-- `load_save` instantiated with the header `save_counter` writes (`Generated.counterHeader` =
+    `"key\tfreq\n"`), all three hypotheses proved -/
+example :
+    let c : List (Str × Int) := [(['a'], 3), ([], 5), ([' ', 'b', ' '], 3), (['c'], -12), (['z'], 0)]
+    loadCounter (saveCounter ("key\tfreq".toList ++ ['\n']) c) = some (mostCommon c) :=
+  load_save "key\tfreq".toList _ (by decide +kernel) (by decide +kernel) (by decide +kernel)
+
+/-- the header in the source tree (`Generated.lean` is regenerated from /repo on every run) -/
+example : Pyndl.Generated.counterHeader.toList = "key\tfreq".toList ++ ['\n'] := by decide +kernel
+
+/-- `hk` is necessary: a key with a CR comes back with a LF inside, i.e. as a
+    broken line (`ValueError`); a key with a TAB gives three fields (`ValueError`);
+    a key with a LF likewise -/
+example :
+    loadCounter (saveCounter "key\tfreq\n".toList [(['a', '\r', 'b'], 1)]) = none ∧
+    loadCounter (saveCounter "key\tfreq\n".toList [(['a', '\t', 'b'], 1)]) = none ∧
+    loadCounter (saveCounter "key\tfreq\n".toList [(['a', '\n', 'b'], 1)]) = none := by
+  decide +kernel
+
+/-- `hh` is necessary: a header with a LF inside makes its second half the
+    first data line (`ValueError` here); `hnd`: a repeated key is rejected -/
+example :
+    loadCounter (saveCounter "key\nfreq\n".toList [(['a'], 1)]) = none ∧
+    loadCounter (saveCounter "key\tfreq\n".toList [(['a'], 1), (['a'], 2)]) = none := by
+  decide +kernel
+
+/-- `band_negative_size` instantiated: `sample_size = -1` returns all four retained words;
+    `band_size` instantiated on the first example (`1 ≤ 2`, positive frequencies) -/
+example :
+    let population : List (Nat × Rat) := [(0, 5), (1, 1), (2, 3), (3, 3), (4, 20)]
+    let shuffled : List (Nat × Rat) := [(4, 20), (3, 3), (0, 5), (2, 3)]
+    (∀ e ∈ population, (2 : Rat) ≤ e.2 → 0 < e.2) ∧
+    shuffled ~ filterCutoff 2 population ∧
+    bandsampleShuffled shuffled (-1) = .ok [(3, 3), (2, 3), (0, 5), (4, 20)] ∧
+    bandsampleShuffled shuffled (-100) = .ok [(3, 3), (2, 3), (0, 5), (4, 20)] ∧
+    bandsampleShuffled shuffled 2 = .ok [(4, 20), (0, 5)] ∧
+    bandsampleShuffled shuffled 0 = .zeroDivision := by
+  refine ⟨by decide +kernel, by decide +kernel, by decide +kernel, by decide +kernel, by decide +kernel,
+    by decide +kernel⟩
+
+/-- a non-integer step (here 31/3, `sample_size = 3`) and a step that no `int`
+    sample_size produces (7/2): `bandsampleRun` covers them -/
+example :
+    bandsampleRun ([(4, 20), (3, 3), (0, 5), (2, 3)] : List (Nat × Rat)) ((7 : Rat) / 2)
+      = .ok [(2, 3), (0, 5), (3, 3), (4, 20)] := by
+  decide +kernel
+
+/-! ### lemmas (not property theorems) -/
+
+/-- (definitional) `sample_size = 0` is the `ZeroDivisionError` of line 42 -/
+theorem band_zero_size {α R : Type} [Add R] [Sub R] [Div R] [Zero R] [IntCast R] [LE R] [DecidableLE R]
+    (shuffled : List (α × R)) : bandsampleShuffled shuffled 0 = .zeroDivision := rfl
+
+/-- (follows from the sort being a permutation) the entries `load_save` returns are the items of the counter (as a dict: same entries, order irrelevant). -/
+theorem load_save_items (c : List (Str × Int)) : mostCommon c ~ c := mostCommon_perm c
+
+
+/-- (definitional; the clause "leaves its argument unchanged" is TEST-ONLY) the
+    model of the call hands the caller's population back as it received it:
+    preprocess.py:31 rebinds the local name to a new list, and the `sort` and
+    every `del` act on that list.  Whether the Python function really never
+    writes to the caller's Counter is observed by the differential run
+    (`arg_unchanged`, harness/run_C20.py), not proved. -/
+theorem band_arg_unchanged {α R : Type} [Add R] [Sub R] [Div R] [Zero R] [IntCast R] [LE R] [DecidableLE R]
+    (cutoff : R) (perm : List Nat) (population : List (α × R)) (sampleSize : Int) :
+    (bandsampleCall cutoff perm population sampleSize).1 = population := rfl
 
 end Pyndl.C20
